@@ -706,6 +706,11 @@ pub fn check(prop: &dyn Property, all: &dyn Fn(&str) -> Option<&'static dyn Prop
                 eprintln!("[{id}] infrastructure problem replaying {r}: {m}");
                 return EXIT_INCONCLUSIVE;
             }
+            if !rf.rendering.is_empty() && !one.render.is_empty() && rf.rendering != one.render && matches!(rf.case, Case::Words { .. }) {
+                // not fatal: the rendering goes through the library's printer, which a change under
+                // test may legitimately alter; on the unchanged tree this line must never appear
+                eprintln!("[{id}] WARNING regression {r} may be stale: its words now render differently\n  stored: {}\n  now:    {}", rf.rendering, one.render);
+            }
             if let Some(fl) = one.failure {
                 if f.fixed {
                     println!("[{id}] regression of a fixed finding fails again: {} ({})", f.id, fl.msg);
